@@ -1,12 +1,17 @@
 (** C11 — thread-specific data destructors run exactly once, with the right value.
     Statements only; every proof is [exact] of a lemma of Tls/TlsDestroyProofs.v.
 
-    [fini false dt t] is the thread-exit walk of the CURRENT source
+    [fini false c dt kg t] is the thread-exit walk of the CURRENT source
     ([myth_tls_tree_fini]: destructor walk, then teardown walk) on the tree [t]
-    of the terminating thread with destructor column [dt] of the key table;
-    [fini true] is the walk as it was before commit 90cf288.  All three ways of
+    of the terminating thread, with layout [c], destructor column [dt] and
+    generation column [kg] of the key table; [fini true] is the walk as it was
+    before commit 90cf288.  The theorems hold for every layout with a positive
+    leaf size and for every generation column, i.e. both for the code without
+    generation tags ([cfg_plain], [kg0]: all generations 0) and for the code
+    with them ([cfg_tagged]; which of the two the library is, is probed by the
+    check on every run).  All three ways of
     terminating (return, [myth_exit], acted-on cancellation) enter
-    [myth_entry_point_cleanup], whose first action is this walk.  [reach t]:
+    [myth_entry_point_cleanup], whose first action is this walk.  [reach c t]:
     [t] is the result of any sequence of [myth_setspecific] calls (any keys, any
     values, also NULL, also out-of-range keys) on a fresh thread. *)
 From Coq Require Import ZArith List Permutation.
@@ -14,11 +19,13 @@ From MT Require Import Tls.TlsTreeModel Tls.TlsTreeProofs Tls.TlsDestroyModel Tl
 Import ListNotations.
 Local Open Scope Z_scope.
 
-(** For every reachable tree and every destructor table the walk completes (no
-    assertion fails) and
+(** For every reachable tree, every destructor table and every generation column
+    the walk completes (no assertion fails) and
     - every call is the call of the destructor of a key [k] of the valid range
-      that HAS a destructor, with [k]'s own current value (never another key's
-      value, never for a key registered without destructor);
+      that HAS a destructor, with what [myth_getspecific(k)] would return to the
+      thread at that moment (never another key's value - in particular, with
+      generation tags, never a value left under an earlier incarnation of the
+      index -, never for a key registered without destructor);
     - for every key with destructor and a non-NULL value that call occurs
       exactly once;
     - no key gets two calls (a call with a NULL value, which the library makes
@@ -28,31 +35,40 @@ Local Open Scope Z_scope.
     - every key-table cell read is inside the 1024-cell table;
     - the nodes handed to [myth_free] are exactly the malloc-ed nodes of the
       tree, each exactly once; no node of the embedded pool is freed. *)
-Theorem C11_exact : forall dt t, reach t ->
-  exists evs, fini false dt t = Some evs /\
-    (forall k v, In (k, v) (calls_of evs) -> in_range k /\ dt k <> 0 /\ get t k = Some v) /\
-    (forall k v, in_range k -> dt k <> 0 -> get t k = Some v -> v <> 0 ->
+Theorem C11_exact : forall c, 0 < c_leaf c -> 0 <= c_pool c -> forall dt kg t, reach c t ->
+  exists evs, fini false c dt kg t = Some evs /\
+    (forall k v, In (k, v) (calls_of evs) -> in_range k /\ dt k <> 0 /\ get kg t k = Some v) /\
+    (forall k v, in_range k -> dt k <> 0 -> get kg t k = Some v -> v <> 0 ->
                  count_occ zz_eq_dec (calls_of evs) (k, v) = 1%nat) /\
     NoDup (map fst (calls_of evs)) /\
     (forall k, In k (reads_of evs) -> in_range k) /\
     NoDup (frees_of evs) /\
-    (forall o, In o (frees_of evs) <-> exists id sz, o = Heap id /\ In (o, sz) (nodes (root t))).
+    (forall o, In o (frees_of evs) <-> exists id sz, o = Heap id /\ In (o, sz) (nodes c (root t))).
 Proof. exact fini_property. Qed.
 Print Assumptions C11_exact.
 
 (** the exact sequences: calls in ascending key order for exactly the keys of
     allocated leaves that have a destructor; cells read = the keys of allocated
     leaves; frees = a permutation of the tree's nodes minus the pool nodes *)
-Theorem C11_trace_exact : forall dt t, reach t ->
-  exists evs, fini false dt t = Some evs /\
-    calls_of evs = flat_map (call_slot dt t) (zrange 0 1024) /\
+Theorem C11_trace_exact : forall c dt kg t, reach c t ->
+  exists evs, fini false c dt kg t = Some evs /\
+    calls_of evs = flat_map (call_slot dt kg t) (zrange 0 1024) /\
     reads_of evs = flat_map (read_slot t) (zrange 0 1024) /\
-    exists os, frees_of evs = filter freed os /\ Permutation os (map fst (nodes (root t))).
+    exists os, frees_of evs = filter (freed c) os /\ Permutation os (map fst (nodes c (root t))).
 Proof. exact fini_exact. Qed.
 Print Assumptions C11_trace_exact.
 
+(** with generation tags: a value sitting in a slot under another generation
+    than the index' current one never reaches a destructor *)
+Theorem C11_stale_not_passed : forall c, 0 < c_leaf c -> 0 <= c_pool c ->
+  forall dt kg t k v0 g evs, reach c t ->
+  fini false c dt kg t = Some evs -> look_tree t k = Found v0 g -> g <> kg k ->
+  forall v, In (k, v) (calls_of evs) -> v = 0.
+Proof. exact stale_not_passed. Qed.
+Print Assumptions C11_stale_not_passed.
+
 (** a thread that never stored anything: no call, no read, no free *)
-Theorem C11_nothing_stored : forall old dt, fini old dt empty = Some [].
+Theorem C11_nothing_stored : forall old c dt kg, fini old c dt kg empty = Some [].
 Proof. exact fini_empty. Qed.
 Print Assumptions C11_nothing_stored.
 
@@ -61,36 +77,50 @@ Print Assumptions C11_nothing_stored.
     teardown walk).  The check replays the first three on the real code and so
     detects a revert of that commit. *)
 Theorem C11_prefix_walk_refuted :
-  (exists t, set_all empty [(16, 777)] = Some t /\ reach t /\ get t 16 = Some 777 /\
-             option_map calls_of (fini true (fun _ => 1) t) = Some []) /\
-  (exists t, set_all empty [(0, 5); (16, 6)] = Some t /\ reach t /\
-             option_map calls_of (fini true (dt_of [0; 16; 64]) t) = Some [(0, 5); (64, 6)]) /\
-  (exists t evs, set_all empty [(0, 5); (256, 6)] = Some t /\ reach t /\
-             fini true (dt_of [0; 256]) t = Some evs /\ In 1024 (reads_of evs) /\
+  (exists t, set_all cfg_plain kg0 empty [(16, 777)] = Some t /\ reach cfg_plain t /\
+             get kg0 t 16 = Some 777 /\
+             option_map calls_of (fini true cfg_plain (fun _ => 1) kg0 t) = Some []) /\
+  (exists t, set_all cfg_plain kg0 empty [(0, 5); (16, 6)] = Some t /\ reach cfg_plain t /\
+             option_map calls_of (fini true cfg_plain (dt_of [0; 16; 64]) kg0 t) = Some [(0, 5); (64, 6)]) /\
+  (exists t evs, set_all cfg_plain kg0 empty [(0, 5); (256, 6)] = Some t /\ reach cfg_plain t /\
+             fini true cfg_plain (dt_of [0; 256]) kg0 t = Some evs /\ In 1024 (reads_of evs) /\
              calls_of evs = [(0, 5)]) /\
-  (exists t evs, set_all empty [(16, 1); (17, 2); (300, 3)] = Some t /\ reach t /\
-             fini true (fun _ => 0) t = Some evs /\
-             exists id sz, In (Heap id, sz) (nodes (root t)) /\ ~ In (Heap id) (frees_of evs)).
+  (exists t evs, set_all cfg_plain kg0 empty [(16, 1); (17, 2); (300, 3)] = Some t /\ reach cfg_plain t /\
+             fini true cfg_plain (fun _ => 0) kg0 t = Some evs /\
+             exists id sz, In (Heap id, sz) (nodes cfg_plain (root t)) /\ ~ In (Heap id) (frees_of evs)).
 Proof. exact prefix_walk_refuted. Qed.
 Print Assumptions C11_prefix_walk_refuted.
 
-(** every list of stores yields a reachable tree, and every reachable tree is
-    produced by some list of stores: "every subset of keys" *)
-Theorem C11_every_subset : forall kvs, exists t, set_all empty kvs = Some t /\ reach t.
-Proof. exact (fun kvs => set_all_reach kvs empty reach_empty). Qed.
+(** every list of stores yields a reachable tree: "every subset of keys" *)
+Theorem C11_every_subset : forall c kg kvs, exists t, set_all c kg empty kvs = Some t /\ reach c t.
+Proof. exact (fun c kg kvs => set_all_reach c kg kvs empty (reach_empty c)). Qed.
 Print Assumptions C11_every_subset.
 
 (** non-vacuity: keys in four different subtrees, mixed destructors, a NULL
     value; the same input under the old walk loses key 1023 and 256 *)
 Example C11_example :
-  match set_all empty [(0, 11); (16, 12); (256, 13); (1023, 14); (5, 0)] with
+  match set_all cfg_plain kg0 empty [(0, 11); (16, 12); (256, 13); (1023, 14); (5, 0)] with
   | Some t =>
-      option_map calls_of (fini false (dt_of [0; 5; 16; 1023; 700]) t)
+      option_map calls_of (fini false cfg_plain (dt_of [0; 5; 16; 1023; 700]) kg0 t)
         = Some [(0, 11); (5, 0); (16, 12); (1023, 14)] /\
-      option_map frees_of (fini false (dt_of [0; 5; 16; 1023; 700]) t)
+      option_map frees_of (fini false cfg_plain (dt_of [0; 5; 16; 1023; 700]) kg0 t)
         = Some [Heap 0; Heap 3; Heap 2; Heap 1; Heap 6; Heap 5; Heap 4] /\
-      option_map calls_of (fini true (dt_of [0; 5; 16; 1023; 700]) t)
+      option_map calls_of (fini true cfg_plain (dt_of [0; 5; 16; 1023; 700]) kg0 t)
         = Some [(0, 11); (5, 0)]
+  | None => False
+  end.
+Proof. vm_compute. repeat split; reflexivity. Qed.
+
+(** non-vacuity with generation tags: keys 0 and 16 stored under generation 1;
+    index 16 has since been deleted and created again (generation 2): its
+    destructor is called with NULL, not with the old incarnation's 12 *)
+Example C11_example_tagged :
+  match set_all cfg_tagged (fun _ => 1) empty [(0, 11); (16, 12)] with
+  | Some t =>
+      option_map calls_of (fini false cfg_tagged (dt_of [0; 16]) (fun k => if k =? 16 then 2 else 1) t)
+        = Some [(0, 11); (16, 0)] /\
+      get (fun k => if k =? 16 then 2 else 1) t 16 = Some 0 /\ get (fun _ => 1) t 16 = Some 12 /\
+      pp t = 384
   | None => False
   end.
 Proof. vm_compute. repeat split; reflexivity. Qed.
